@@ -47,13 +47,27 @@ type trFunc struct {
 	wbStack      []string
 	hasWriteBack bool
 	hasEscape    bool
+	// round 2 (translate_alias.go)
+	extras      []extraParam
+	alias       map[types.Object]*aliasInfo
+	aliasBind   map[ast.Stmt]*aliasInfo
+	synth       map[*ast.SelectorExpr]bool
+	touch       map[types.Object]map[string]bool
+	writes      map[types.Object]map[string]bool
+	finder      *finderInfo
+	oracleUsed  map[string]bool
+	keyOverride map[types.Object]string // parameter -> key of funcs.json/types (funcSpec.ParamTypes)
+	freeU256    bool                    // no in-place uint256 operation on a variable / field: pointer copies are harmless
 }
 
 func newTrFunc(tr *translator, node *FuncNode, spec *funcSpec, info *types.Info) *trFunc {
 	return &trFunc{tr: tr, node: node, spec: spec, info: info,
 		names: map[types.Object]string{}, used: map[string]bool{}, opt: map[types.Object]bool{},
 		mutated: map[types.Object]bool{}, fresh: map[types.Object]bool{},
-		assigned: map[types.Object]bool{}, rangeVal: map[types.Object]bool{}, writeBack: map[*ast.RangeStmt]string{}}
+		assigned: map[types.Object]bool{}, rangeVal: map[types.Object]bool{}, writeBack: map[*ast.RangeStmt]string{},
+		alias: map[types.Object]*aliasInfo{}, aliasBind: map[ast.Stmt]*aliasInfo{}, synth: map[*ast.SelectorExpr]bool{},
+		touch: map[types.Object]map[string]bool{}, writes: map[types.Object]map[string]bool{}, oracleUsed: map[string]bool{},
+		keyOverride: map[types.Object]string{}}
 }
 
 func (f *trFunc) problem(n ast.Node, format string, args ...interface{}) {
@@ -186,7 +200,71 @@ func (f *trFunc) isOptExpr(e ast.Expr) bool {
 			return g.resOpt[0]
 		}
 	}
+	if ix, ok := e.(*ast.IndexExpr); ok {
+		if m := mapOf(f.typeOf(ix.X)); m != nil && isStructPtr(m.Elem()) {
+			return true // a missing key yields nil
+		}
+	}
+	if sel, ok := e.(*ast.SelectorExpr); ok {
+		return f.isOptionalField(sel)
+	}
 	return false
+}
+
+// specOfStruct: the funcs.json entry for the struct type of expression x (a parameter may carry
+// an override, funcSpec.ParamTypes)
+func (f *trFunc) specOfStruct(x ast.Expr) (string, typeSpec, bool) {
+	n := structOf(f.typeOf(x))
+	if n == nil {
+		return "", typeSpec{}, false
+	}
+	k := f.tr.typeKey(n)
+	if o := f.objOf(x); o != nil {
+		if ko, ok := f.keyOverride[o]; ok {
+			k = ko
+		}
+	}
+	ts, ok := f.tr.exp.Types[k]
+	if ok {
+		f.tr.usedTy[k] = true
+	}
+	return k, ts, ok
+}
+
+// isPtrField: sel = X.F with F a (non-optional) pointer-to-struct field
+func (f *trFunc) isPtrField(sel *ast.SelectorExpr) bool {
+	s := f.info.Selections[sel]
+	if s == nil || s.Kind() != types.FieldVal || len(s.Index()) != 1 {
+		return false
+	}
+	return isStructPtr(f.typeOf(sel)) && !f.isOptionalField(sel)
+}
+
+// isOptionalField: sel selects a pointer field declared "optional" in funcs.json/types
+func (f *trFunc) isOptionalField(sel *ast.SelectorExpr) bool {
+	if !f.synth[sel] {
+		if s := f.info.Selections[sel]; s == nil || s.Kind() != types.FieldVal {
+			return false
+		}
+	}
+	x := sel.X
+	if s := f.info.Selections[sel]; s != nil && len(s.Index()) > 1 {
+		// promoted: the optional-ness is that of the last step
+		n := structOf(f.typeOf(x))
+		for _, idx := range s.Index()[:len(s.Index())-1] {
+			if n == nil {
+				return false
+			}
+			n = structOf(n.Underlying().(*types.Struct).Field(idx).Type())
+		}
+		if n == nil {
+			return false
+		}
+		ts, ok := f.tr.exp.Types[f.tr.typeKey(n)]
+		return ok && ts.isOptional(sel.Sel.Name)
+	}
+	_, ts, ok := f.specOfStruct(x)
+	return ok && ts.isOptional(sel.Sel.Name)
 }
 
 // analyse: Option-ness fixpoint, mutated variables, result shapes
@@ -228,6 +306,11 @@ func (f *trFunc) analyse() {
 						}
 					}
 				} else if len(s.Rhs) == 1 {
+					if len(s.Lhs) == 2 && f.isOptExpr(s.Rhs[0]) {
+						if _, isIx := ast.Unparen(s.Rhs[0]).(*ast.IndexExpr); isIx {
+							changed = markOpt(f.objOf(s.Lhs[0])) || changed
+						}
+					}
 					if c, ok := ast.Unparen(s.Rhs[0]).(*ast.CallExpr); ok {
 						if g, _ := f.callee(c); g != nil && len(g.resOpt) == len(s.Lhs) {
 							for i, l := range s.Lhs {
@@ -280,6 +363,13 @@ func (f *trFunc) analyse() {
 				f.mutated[o] = true
 			}
 			return
+		}
+		if sel, ok := e.(*ast.SelectorExpr); ok && (f.wrapOf(sel) != nil || f.isPtrField(sel)) {
+			// the object behind a pointer field of a variable (trusted: not shared with another field)
+			if o := f.objOf(sel.X); o != nil {
+				f.mutated[o] = true
+				return
+			}
 		}
 		f.problem(at, "assignment through `%s` (only fields of a variable can be assigned)", f.src(e))
 	}
@@ -386,6 +476,23 @@ func (f *trFunc) analyse() {
 	for i := 0; i < sig.Params().Len(); i++ {
 		f.params = append(f.params, sig.Params().At(i))
 	}
+	if f.spec != nil {
+		for _, p := range f.params {
+			if k, ok := f.spec.ParamTypes[p.Name()]; ok {
+				f.keyOverride[p] = k
+			}
+		}
+	}
+	f.freeU256 = true
+	ast.Inspect(body, func(n ast.Node) bool {
+		if c, ok := n.(*ast.CallExpr); ok {
+			if sel, ok := ast.Unparen(c.Fun).(*ast.SelectorExpr); ok && isUint256(f.typeOf(sel.X)) && uint256Setter[sel.Sel.Name] && !f.isFreshU256(sel.X) {
+				f.freeU256 = false
+			}
+		}
+		return true
+	})
+	f.findAliases()
 	for _, p := range f.params {
 		if f.mutated[p] {
 			if _, isPtr := p.Type().(*types.Pointer); isPtr {
@@ -394,6 +501,8 @@ func (f *trFunc) analyse() {
 		}
 	}
 	f.checkAliasing()
+	f.computeFootprint()
+	f.detectFinder()
 }
 
 // callArgs: receiver expression (if a method call) followed by the arguments
@@ -518,12 +627,17 @@ func (f *trFunc) checkAliasing() {
 			return
 		}
 		if isUint256(lt) {
-			if _, ok := ast.Unparen(r).(*ast.CallExpr); !ok {
+			// (a pointer copy is harmless in a function without in-place uint256 operations on
+			// variables / fields; the sharing it creates between the results is the caller's concern)
+			if _, ok := ast.Unparen(r).(*ast.CallExpr); !ok && !f.freeU256 && !f.isNil(r) {
 				f.problem(at, "*uint256.Int `%s` is bound to `%s` without a copy (aliasing)", f.src(l), f.src(r))
 			}
 			return
 		}
 		if o := f.objOf(l); o != nil && f.mutated[o] && !isParam[o] && isStructPtr(o.Type()) {
+			if st, ok := at.(ast.Stmt); ok && f.aliasBind[st] != nil && f.aliasBind[st].obj == o {
+				return // a pointer to an element, written back after every write (translate_alias.go)
+			}
 			if !isFreshExpr(r) && !f.isNil(r) {
 				f.problem(at, "`%s` is mutated but bound to `%s`, which may alias another object", o.Name(), f.src(r))
 			}
@@ -539,6 +653,9 @@ func (f *trFunc) checkAliasing() {
 			} else {
 				for _, l := range s.Lhs {
 					if o := f.objOf(l); o != nil && f.mutated[o] && !isParam[o] && isStructPtr(o.Type()) {
+						if a := f.aliasBind[s]; a != nil && a.obj == o {
+							continue
+						}
 						f.problem(s, "`%s` is mutated but bound to a call result, which may alias another object", o.Name())
 					}
 					if lt := f.typeOf(l); lt != nil && isUint256(lt) {
@@ -609,6 +726,15 @@ func (f *trFunc) src(e ast.Expr) string { return types.ExprString(e) }
 
 // varType: Lean type of a variable (Option for possibly-nil pointers)
 func (f *trFunc) varType(o types.Object) string {
+	if k, ok := f.keyOverride[o]; ok {
+		ts, ok := f.tr.exp.Types[k]
+		if !ok {
+			f.problem(nil, "%s: no entry %s in funcs.json/types", o.Name(), k)
+			return "Unsupported"
+		}
+		f.tr.usedTy[k] = true
+		return ts.Lean
+	}
 	t, err := f.tr.leanType(o.Type())
 	if err != nil {
 		f.problem(nil, "%s: %v", o.Name(), err)
@@ -681,6 +807,21 @@ func (f *trFunc) translate() {
 	if !terminates(d.Body.List) {
 		lines = append(lines, "  "+f.returnLine(nil, nil))
 	}
+	for _, e := range f.extras {
+		ps = append(ps, fmt.Sprintf("(%s : %s)", e.name, e.typ))
+	}
+	if f.spec.Oracles != nil {
+		var ks []string
+		for k := range f.spec.Oracles {
+			ks = append(ks, k)
+		}
+		sort.Strings(ks)
+		for _, k := range ks {
+			if !f.oracleUsed[k] {
+				f.problem(nil, "oracle call `%s` of funcs.json does not occur in the function", k)
+			}
+		}
+	}
 	f.sigText = fmt.Sprintf("%s %s : G %s", f.spec.Lean, strings.Join(ps, " "), f.retType)
 	var doc strings.Builder
 	doc.WriteString(fmt.Sprintf("/-- `%s` of rigo-go", f.spec.key()))
@@ -693,6 +834,9 @@ func (f *trFunc) translate() {
 	}
 	if f.arith > 0 {
 		doc.WriteString(fmt.Sprintf("; %d signed + - * site(s) taken without int64 overflow", f.arith))
+	}
+	for _, e := range f.extras {
+		doc.WriteString(fmt.Sprintf("; parameter %s = %s", e.name, e.origin))
 	}
 	doc.WriteString(" -/\n")
 	if len(f.problems) > 0 {
